@@ -865,6 +865,25 @@ class NpProxy:
             return _f_where(c, x, y)
         return _real_np.where(c, x, y) if x is not None else _real_np.where(c)
 
+    def isclose(self, a, b, rtol=1e-05, atol=1e-08, equal_nan=False):
+        if has_sym(a) or has_sym(b):
+            a_, b_ = sarr(a, copy=False), sarr(b, copy=False)
+            return self.abs(a_ - b_) <= (R(atol) + R(rtol) * self.abs(b_))  # numpy's documented (asymmetric) formula
+        return _real_np.isclose(a, b, rtol=rtol, atol=atol, equal_nan=equal_nan)
+
+    def allclose(self, a, b, rtol=1e-05, atol=1e-08, equal_nan=False):
+        if has_sym(a) or has_sym(b):
+            return _f_all(self.isclose(a, b, rtol=rtol, atol=atol))
+        return _real_np.allclose(a, b, rtol=rtol, atol=atol, equal_nan=equal_nan)
+
+    def array_equal(self, a, b, equal_nan=False):
+        if has_sym(a) or has_sym(b):
+            a_, b_ = sarr(a, copy=False), sarr(b, copy=False)
+            if a_.shape != b_.shape:
+                return False
+            return _f_all(a_ == b_)
+        return _real_np.array_equal(a, b, equal_nan=equal_nan)
+
     def all(self, a, axis=None, **kw):
         if has_sym(a):
             return _f_all(a, axis=axis)
